@@ -8,9 +8,21 @@ C13 ops: the transaction interpreter against real script execution.
   C interp              `Model/Interp.lean` (big-step model of `Iter::iter_next`) vs the real iterator
   X interp-diag         diagnostic class of a judged case (not part of the decision; used for the
                         statistics of converse disagreements)
+  J interp-sound-m / J constraints-m / C interp-m   the same for the entry points
+                        `iter_assume_sigs` (mode `assume`: a signature is valid iff it has the
+                        shape of one - table `D sig - <sig>`) and `iter_custom` (mode `ban:<pk>`:
+                        real verification, never for that key); the mode changes the signature
+                        oracle on BOTH sides (Script's `sigOk` and the model's `verifySig`)
+  J policy              the reported constraints satisfy the spending condition `Spec/MsSem.sem`
+                        of the executed miniscript
+  J policy-key          a single-key output reports exactly one signature, for that key
+  J inferred            the inferred descriptor's miniscript, encoded by the Lean encoder, is the
+                        executed script, and `Spec/Outputs` maps it to the spent scriptPubKey
 -/
 import MsVerif.Driver.OpsSpend
 import MsVerif.Model.Interp
+import MsVerif.Spec.MsSem
+import MsVerif.Spec.Outputs
 
 namespace MsVerif.Driver
 open MsVerif Script Spend
@@ -232,6 +244,59 @@ def showConstraint (_tap : Bool) : Interp.Constraint → String
   | .older n => s!"older:{relCanon n}"
   | .after n => s!"after:{n}"
 
+/-! ### the other entry points: one signature oracle per mode, used on both sides -/
+
+inductive Mode
+  | real
+  | assume
+  | ban (pk : Bytes)
+
+def parseMode (s : String) : Option Mode :=
+  if s == "real" then some .real
+  else if s == "assume" then some .assume
+  else match s.splitOn ":" with
+    | ["ban", pk] => (Hash.ofHex pk).map .ban
+    | _ => none
+
+/-- `assume`: every element with the shape of a signature (registered by the harness with libsecp's
+DER parser / the BIP341 lengths, as `D sig - <sig>`) verifies for every key -/
+def sigOkM (t : Tables) (m : Mode) (dom : Nat) (pk sg : Bytes) : Bool :=
+  match m with
+  | .real => t.dsigs.contains (dom, pk, sg)
+  | .assume => t.sigs.contains ([], sg)
+  | .ban b => pk != b && t.dsigs.contains (dom, pk, sg)
+
+def spendEnvM (t : Tables) (m : Mode) (ver lt sq : Nat) : SpendEnv :=
+  { spendEnvV t ver lt sq with sigOk := sigOkM t m }
+
+def interpEnvM (t : Tables) (m : Mode) (ctx : Ctx) (dom ver lt sq : Nat) : Interp.IEnv :=
+  { interpEnv t ctx dom ver lt sq with verifySig := fun pk sg => sigOkM t m dom pk sg }
+
+/-! ### the reported constraints against the spending condition -/
+
+def tokFields (tok : String) : List String := tok.splitOn ":"
+
+/-- the world the reported constraints describe: who signed, which preimages were shown, and the
+largest absolute / relative lock reported (none: a lock time / sequence no lock is satisfied by) -/
+def worldOfTokens (t : Tables) (toks : List String) : Pol.World where
+  canSign k :=
+    let pk := Hash.toHexW (t.keyEnv.ser k)
+    toks.any fun tok => match tokFields tok with
+      | ["sig", p, _] => p == pk
+      | ["sigh", _, p, _] => p == pk
+      | _ => false
+  preimage kind h :=
+    toks.any fun tok => match tokFields tok with
+      | ["hash", k, hv, _] =>
+        (([HashKind.sha256, .hash256, .ripemd160, .hash160].find? fun hk => MsSem.polHash hk == kind).map
+          fun hk => k == HashKind.name hk && hv == Hash.toHexW (t.keyEnv.hashVal hk h)).getD false
+      | _ => false
+  nLockTime := (toks.filterMap fun tok => match tokFields tok with | ["after", n] => n.toNat? | _ => none).foldl max 0
+  nSequence :=
+    match toks.filterMap fun tok => match tokFields tok with | ["older", n] => n.toNat? | _ => none with
+    | [] => 4294967295
+    | l => l.foldl max 0
+
 def parseVerdictArgs (args : List String) : Option (Nat × Nat × Nat × Bytes × Bytes × List Bytes × String) :=
   match args with
   | _cls :: ver :: lt :: sq :: spk :: ss :: wit :: last :: _ => do
@@ -279,6 +344,91 @@ def opsInterp (t : Tables) (kind op : String) (args : List String) : Option Stri
       pure (match Interp.interpTop t.keyEnv (interpEnv t ctx dom ver lt sq) ms a with
         | .ok cs => "accept " ++ (if cs.isEmpty then "-" else ",".intercalate (cs.map (showConstraint (ctx == .tap))))
         | .error e => "reject:" ++ showIErr e)
+    | _ => none
+  | "J", "interp-accepts-own-m" =>
+    match args with
+    | _m :: rest => do
+      let (_, _, _, _, _, _, v) ← parseVerdictArgs rest
+      pure (if v == "accept" then "ok" else "bad:this-entry-point-rejects-a-spend-that-iter-accepts(" ++ v ++ ")")
+    | _ => none
+  -- J interp-sound-m <mode> <input class> <ver> <lt> <sq> <spk> <ss> <wit> <verdict> | info
+  | "J", "interp-sound-m" =>
+    match args with
+    | m :: rest => do
+      let m ← parseMode m
+      let (ver, lt, sq, spk, ss, wit, v) ← parseVerdictArgs rest
+      if v != "accept" then pure "ok" else
+      pure (match verifySpend (spendEnvM t m ver lt sq) spk ss wit with
+        | .ok => "ok"
+        | .fail w => "bad:interpreter-accepts-but-script-rejects(" ++ w ++ ")")
+    | _ => none
+  | "J", "constraints-m" =>
+    match args with
+    | m :: rest => do
+      let m ← parseMode m
+      let (ver, lt, sq, spk, ss, wit, cs) ← parseVerdictArgs rest
+      let reported := sortStr ((if cs == "-" then [] else cs.splitOn ",").map normToken)
+      pure (match executedChecks (spendEnvM t m ver lt sq) spk ss wit with
+        | none => "ok"
+        | some ex =>
+          if ex == reported then "ok"
+          else "bad:reported[" ++ ",".intercalate reported ++ "]executed[" ++ ",".intercalate ex ++ "]")
+    | _ => none
+  -- C interp-m <mode> <ctx> <dom> <ver> <lt> <sq> <ast> <stack, bottom first>
+  | "C", "interp-m" =>
+    match args with
+    | [m, ctx, dom, ver, lt, sq, ast, st] => do
+      let m ← parseMode m
+      let ctx ← parseCtx ctx; let dom ← dom.toNat?; let ver ← ver.toNat?; let lt ← lt.toNat?; let sq ← sq.toNat?
+      let ms ← parseAst ast; let st ← parseHexList st
+      let a : Interp.AStack := st.reverse.map Interp.Elem.ofBytes
+      pure (match Interp.interpTop t.keyEnv (interpEnvM t m ctx dom ver lt sq) ms a with
+        | .ok cs => "accept " ++ (if cs.isEmpty then "-" else ",".intercalate (cs.map (showConstraint (ctx == .tap))))
+        | .error e => "reject:" ++ showIErr e)
+    | _ => none
+  -- J policy <ctx> <ast> <constraint tokens> | info
+  | "J", "policy" =>
+    match args with
+    | _ctx :: ast :: cs :: _ => do
+      let ms ← parseAst ast
+      let toks := if cs == "-" then [] else cs.splitOn ","
+      pure (if MsSem.sem (worldOfTokens t toks) ms then "ok"
+        else "bad:reported-constraints-do-not-satisfy-the-spending-condition")
+    | _ => none
+  -- J policy-key <pk> <constraint tokens> | info
+  | "J", "policy-key" =>
+    match args with
+    | pk :: cs :: _ =>
+      some (match (if cs == "-" then [] else cs.splitOn ",").map tokFields with
+        | [["sig", p, _]] => if p == pk then "ok" else "bad:signature-reported-for-another-key"
+        | _ => "bad:a-single-key-output-must-report-exactly-one-signature")
+    | _ => none
+  -- J inferred <spk> <executed script element or -> <kind> <ast | key | -> | info
+  | "J", "inferred" =>
+    match args with
+    | spk :: elem :: kind :: body :: _ => do
+      let spk ← Hash.ofHex spk
+      let H : Outputs.Hashes := ⟨Hash.sha256, Hash.hash160⟩
+      let scriptOut (ctx : Ctx) (mk : Bytes → Outputs.Output) (needElem : Bool) : Option String := do
+        let ms ← parseAst body
+        let sc := encodeBytes t.keyEnv ctx ms
+        let el ← if needElem then Hash.ofHex elem else some sc
+        pure (if sc != el then "bad:inferred-miniscript-does-not-encode-to-the-executed-script"
+          else if Outputs.Output.scriptPubKey H (mk sc) != spk then "bad:inferred-descriptor-has-another-scriptPubKey"
+          else "ok")
+      let keyOut (mk : Bytes → Outputs.Output) : Option String := do
+        let pk ← Hash.ofHex body
+        pure (if Outputs.Output.scriptPubKey H (mk pk) != spk then "bad:inferred-descriptor-has-another-scriptPubKey" else "ok")
+      match kind with
+      | "bare" => scriptOut .bare .bare false
+      | "sh" => scriptOut .legacy .sh true
+      | "wsh" => scriptOut .segwitv0 .wsh true
+      | "shwsh" => scriptOut .segwitv0 .shWsh true
+      | "pkh" => keyOut .pkh
+      | "wpkh" => keyOut .wpkh
+      | "shwpkh" => keyOut .shWpkh
+      | "none" => some "bad:no-inferred-descriptor-for-a-sane-spend"
+      | _ => some "bad:inferred-descriptor-not-readable"
     | _ => none
   | _, _ => none
 
